@@ -26,7 +26,8 @@ ID = "C16"
 LEVEL = "exploration"
 RULE = ("generated histories of 3-25 events over {connect request (established / refused; the server's handshake reply delivered at "
         "once or held back so that the connection is still being established when the next event arrives), peer close, disconnect "
-        "request (only while up or being established), server reply, success, failure, stream error (conflict / ack / xml-not-well-formed, with or without text), keep-alive tick (virtual "
+        "request (only while up or being established), server reply, success, (failure, stream error and peer close optionally with the first "
+        "bytes of a further, never completed frame in the same read), failure, stream error (conflict / ack / xml-not-well-formed, with or without text), keep-alive tick (virtual "
         "clock, one second at a time), pong for a chosen outstanding ping, application send, loop runs} with options {reconnect on "
         "stream error on/off, ping interval 1-3 s, passive}; the history is closed out (connection closed, loop run until no deferred "
         "callback is left) before the top-level counts are compared. Non-trivial = at least 2 established connections in the history, "
@@ -292,10 +293,18 @@ def _run(case, out, rig):
                 rig.run()
         return True
 
-    def server_stanza(tree):
+    def partial_frame(k):
+        """the first k bytes of a further frame (3-byte header announcing 32 bytes, then payload bytes)"""
+        return (b"\x00\x00\x20" + b"\xab" * 32)[:k]
+
+    def server_stanza(tree, partial=0):
         # only the connection the stanza is sent on takes part: a reconnect triggered by it belongs to settle()
         d = rig.current
         rig.server.send_frame(R.encode(tree))
+        if partial:
+            # the same read also carries the beginning of the server's next frame, which this connection never completes
+            rig.server.out += partial_frame(partial)
+            out.label("unfinished_frame_behind_closing_stanza")
         rig.shuttle(only=d)
 
     def app_task(name, fn):
@@ -333,6 +342,10 @@ def _run(case, out, rig):
         elif kind == "peer_close":
             if m["state"] != "up":
                 continue
+            if len(op) > 1 and op[1] and m["held"] is None:
+                rig.deliver(partial_frame(op[1]))
+                rig.run()
+                out.label("unfinished_frame_before_peer_close")
             rig.current.inbox.put(("close",))
             rig.run()
             went_down()
@@ -372,7 +385,7 @@ def _run(case, out, rig):
             if m["state"] != "up" or m["authed"]:
                 continue
             n_f = len([e for e in above.got if getattr(e, "getTag", lambda: "")() == "failure"])
-            server_stanza(("failure", {"reason": op[1] if len(op) > 1 else "401"}, None))
+            server_stanza(("failure", {"reason": op[1] if len(op) > 1 else "401"}, None), op[2] if len(op) > 2 else 0)
             m["failures"] += 1
             went_down()
             out.label("failure")
@@ -386,7 +399,7 @@ def _run(case, out, rig):
             children = [(op[1], {}, None)]
             if op[1] == "conflict" and len(op) > 2 and op[2]:
                 children.append(("text", {}, b"Replaced by new connection"))
-            server_stanza(("stream:error", {}, children))
+            server_stanza(("stream:error", {}, children), op[3] if len(op) > 3 else 0)
             m["stream_errors"] += 1
             went_down()
             m["pending_reconnect"] = reconnect_opt and op[1] != "conflict"
@@ -490,12 +503,15 @@ def shrink_candidates(case):
         yield dict(case, choices=[])
 
 
+_partial = st.sampled_from([0, 0, 0, 1, 2, 3, 5, 20])
+
+
 def op_strategy():
     return st.one_of(
-        st.just(["connect"]), st.just(["connect"]), st.just(["peer_close"]), st.just(["disconnect"]),
+        st.just(["connect"]), st.just(["connect"]), st.tuples(st.just("peer_close"), _partial).map(list), st.just(["disconnect"]),
         st.just(["success"]), st.just(["success"]),
-        st.tuples(st.just("failure"), st.sampled_from(["401", "403", "not-authorized"])).map(list),
-        st.tuples(st.just("stream_error"), st.sampled_from(["conflict", "ack", "xml-not-well-formed"]), st.booleans()).map(list),
+        st.tuples(st.just("failure"), st.sampled_from(["401", "403", "not-authorized"]), _partial).map(list),
+        st.tuples(st.just("stream_error"), st.sampled_from(["conflict", "ack", "xml-not-well-formed"]), st.booleans(), _partial).map(list),
         st.just(["tick"]), st.just(["tick"]),
         st.tuples(st.just("pong"), st.integers(0, 3)).map(list),
         st.just(["send"]), st.just(["close_and_send"]), st.just(["server_reply"]),
@@ -530,6 +546,8 @@ def _enum_basic():
     yield dict(base, redundant_down=True, ops=[["connect"], ["success"], ["close_and_send"], ["connect"], ["success"], ["disconnect"], ["connect"], ["peer_close"]])
     yield dict(base, late=[True, True, True, False], ops=[["connect"], ["peer_close"], ["connect"], ["disconnect"], ["connect"], ["server_reply"], ["success"],
                                                           ["peer_close"], ["connect"], ["success"], ["tick"]])
+    yield dict(base, ops=[["connect"], ["failure", "401", 5], ["connect"], ["success"], ["stream_error", "ack", False, 2], ["success"], ["peer_close", 4],
+                          ["connect"], ["success"], ["tick"]])
     yield dict(base, late=[True, True], ops=[["connect"], ["close_and_send"], ["loop"], ["connect"], ["success"], ["stream_error", "ack", False], ["success"]])
 
 
